@@ -247,8 +247,9 @@ func runC19(r *simkit.Run) {
 					if c.Chance(150, "other-eon") {
 						eon, ei = 2, 1
 					}
-					gas := simkit.Pick(c, []int64{21_000, 30_000, 50_000, 79_000, 100_000, 100_001, 250_000}, "gas")
-					specs = append(specs, logTransactionSubmitted(eon, txCount[ei], [32]byte{byte(salt), byte(i), 0x33}, common.BytesToAddress([]byte{0x71, byte(c.Intn(3, "tx-sender"))}), []byte{1}, big.NewInt(gas)))
+					gas := simkit.Pick(c, []int64{21_000, 21_000, 21_000, 30_000, 50_000, 79_000, 100_000, 100_001, 250_000}, "gas")
+					// identity prefixes in no particular order relative to the queue order
+					specs = append(specs, logTransactionSubmitted(eon, txCount[ei], [32]byte{byte(c.Intn(256, "prefix-byte")), byte(salt), byte(i), 0x33}, common.BytesToAddress([]byte{0x71, byte(c.Intn(3, "tx-sender"))}), []byte{1}, big.NewInt(gas)))
 					txCount[ei]++
 				}
 				// block timestamp = start of the current slot
@@ -354,6 +355,9 @@ func runC19(r *simkit.Run) {
 				}
 				if !eqBytesList(tr.ids, want) {
 					r.Fail("wrong-identity-selection", "gnosis", "node %s slot %d pointer %d queue len %d: requested identities %x, expected %x", nd.name, slot, cptr, len(q), tr.ids, want)
+				}
+				if len(want) >= 4 {
+					r.Probe("three-or-more-transactions-selected")
 				}
 				if len(want)-1 < len(q)-int(minI64(cptr, int64(len(q)))) {
 					r.Probe("gas-limit-cut")
